@@ -111,6 +111,16 @@ fn run_w(ctx: &Ctx, pid: &str, nq: u64, nt: u64, snapshots: bool, bias: fn(&mut 
 
 pub fn run_c06_online(ctx: &Ctx, rep_direct: Option<Report>) -> i32 {
     let mut rep = Report::new();
+    if let Some(path) = &ctx.replay {
+        let v: serde_json::Value = serde_json::from_str(&std::fs::read_to_string(path).expect("replay")).expect("json");
+        if v["case"]["kind"] == "api" {
+            let mut kinds = Default::default();
+            super::c06_journal::one(v["case"]["case_seed"].as_u64().unwrap(), &mut rep, &mut kinds);
+            println!("replayed api history: {} violation(s)", rep.violations.len());
+            return finish_online(ctx, rep, "C06", "replay", vec![]);
+        }
+    }
+    let rep_direct = if ctx.replay.is_none() { Some(rep_direct.unwrap_or_else(|| super::c06_journal::run_direct(ctx))) } else { None };
     if replay_case(ctx, &mut rep, true) {
         return finish_online(ctx, rep, "C06", "replay", vec![]);
     }
@@ -124,7 +134,7 @@ pub fn run_c06_online(ctx: &Ctx, rep_direct: Option<Report>) -> i32 {
         let have = rep.counter(k);
         rep.floor(k, have, 50);
     }
-    finish_online(ctx, rep, "C06", &format!("Online: projection pi(JournaledState) (balances, nonces, code hashes, slot values, touched/created/destroyed flags, account and slot warmth, transient storage, logs, depth) snapshotted at every call/create/eofcreate notification and compared at the matching end notification whenever the frame did not succeed; allowed differences: warmth of the callee / delegation target / created address / tx-level pre-warmed addresses, the creator's bumped nonce, the historical RIPEMD touch. {W_RULE}"), std_assumptions())
+    finish_online(ctx, rep, "C06", &format!("(A) direct histories on JournaledState over RefDB (load, load_code, nested checkpoint/commit/revert, call-style transfers incl. self-transfers and amounts that overflow balances near 2^256, inc_nonce, set_code on code-less accounts, sstore/sload, tstore, log, selfdestruct, create_account_checkpoint, touch; nesting <= 14; 7 SpecIds) with a snapshot stack of the projection as oracle after every revert, failed transfer and failed create, and unchanged-state check on commit. (B) Online: projection pi(JournaledState) (balances, nonces, code hashes, slot values, touched/created/destroyed flags, account and slot warmth, transient storage, logs, depth) snapshotted at every call/create/eofcreate notification and compared at the matching end notification whenever the frame did not succeed; allowed differences: warmth of the callee / delegation target / created address / tx-level pre-warmed addresses, the creator's bumped nonce, the historical RIPEMD touch. {W_RULE}"), std_assumptions())
 }
 
 pub fn run_c08(ctx: &Ctx) -> i32 {
